@@ -338,6 +338,54 @@ def op_parse_json_schema_and_sqlalchemy(d):
     return ir_text(a) + "\n" + ir_text(b)
 
 
+# ---- twin inputs: same names and shapes, values that compare (and hash) equal across types - 1/True/1.0, 0/False/0.0, 5/5.0 -----------
+# anything memoised on ==/hash of a value, or on a name alone, answers one twin with the other twin's result
+def twin_ir(which):
+    vals = {"a": dict(retries=("int", 1), delay=("int", 0), limit=("int", 5), scale=("float", 1.0)),
+            "b": dict(retries=("bool", True), delay=("bool", False), limit=("float", 5.0), scale=("int", 1))}[which]
+    return {
+        "name": "Cfg",
+        "type": "static",
+        "doc": "Summary line.",
+        "params": OrderedDict((n, OrderedDict((("doc", "the %s" % n), ("typ", t), ("default", v)))) for n, (t, v) in vals.items()),
+        "returns": None,
+    }
+
+
+TWIN_SRC = {
+    "a": 'def f(retries: int = 1, delay: int = 0, limit: int = 5):\n    """\n    Summary.\n\n    :param retries: the retries. Defaults to 1\n\n    :param delay: the delay. Defaults to 0\n\n'
+         '    :param limit: the limit. Defaults to 5\n    """\n    return retries\n',
+    "b": 'def f(retries: bool = True, delay: bool = False, limit: float = 5.0):\n    """\n    Summary.\n\n    :param retries: the retries. Defaults to True\n\n    :param delay: the delay. Defaults to False\n\n'
+         '    :param limit: the limit. Defaults to 5.0\n    """\n    return retries\n',
+}
+
+
+def _twin(which):
+    import cdd.docstring.parse
+    import cdd.function.parse
+    from mc import formats as F
+
+    out = []
+    for fmt in ("docstring", "class", "function", "argparse", "json_schema"):
+        for style in (("rest", "google", "numpydoc") if fmt == "docstring" else ("rest",)):
+            node = F.emit_ast(fmt, deepcopy(twin_ir(which)), style, True)
+            out.append(node if isinstance(node, str) else json.dumps(node) if isinstance(node, dict) else F.render(node))
+    fn = ast.parse(TWIN_SRC[which]).body[0]
+    out.append(ir_text(cdd.function.parse.function(fn)))
+    out.append(ir_text(cdd.function.parse.function(fn, infer_type=True)))
+    out.append(ir_text(cdd.docstring.parse.docstring(ast.get_docstring(fn), emit_default_doc=True)))
+    out.append(ir_text(cdd.docstring.parse.docstring(ast.get_docstring(fn), emit_default_doc=False, infer_type=True)))
+    return "\n#####\n".join(out)
+
+
+def op_twin_a(d):
+    return _twin("a")
+
+
+def op_twin_b(d):
+    return _twin("b")
+
+
 OPS = OrderedDict(
     (
         ("fn_subset", op_fn_subset),
@@ -360,5 +408,7 @@ OPS = OrderedDict(
         ("get_module_contents", op_get_module_contents),
         ("openapi", op_openapi),
         ("parse_json_schema_and_sqlalchemy", op_parse_json_schema_and_sqlalchemy),
+        ("twin_a", op_twin_a),
+        ("twin_b", op_twin_b),
     )
 )
